@@ -26,6 +26,7 @@ EXPLANATION = (
     ' (CURSOR) the token cursor is moved only by Context::skip/prev; skip ends with one loop passing comments and (under the flag) newlines in any interleaving; switching newline skipping on re-normalises the position.'
     " (ARROW rhs level) the call after `->` is parsed at call level; (PARENS shape tests) name resolution's tests on the shape of an unresolved expression look through parentheses; (NEWLINE-MODE continuation) the argument list of a prime call continues over any run of line breaks next to a comma."
     ' (BRACKET-MODE) wherever a parsing function moves a cursor known to stand on `(`, `[` or `{`, newline skipping is switched on before the next parsing call: derived for every bracket, not tabulated.'
+    ' (ARROW parser arm) every arm over `Call(callee, args)` after `->` answers ArrowCall(value, callee, args), unguarded; (PARENS parser form tests) where the parser demands a form of a sub-expression it has just parsed, the test is made without the parentheses.'
 )
 UNDECIDED = ("that every pair of surface variants parses to the same tree in all combinations (the prime-call argument loop ends at the "
              "first expression that fails to parse, which is layout dependent by design).")
